@@ -5,6 +5,7 @@
 package mpegts
 
 import (
+	"github.com/cnotch/ipchub/utils/simhook"
 	"fmt"
 	"runtime/debug"
 
@@ -88,8 +89,11 @@ func (muxer *Muxer) process(vp, ap Packetizer) {
 		muxer.recvQueue.Reset()
 	}()
 
+	simhook.Y("tsmux.start")
 	for !muxer.closed {
+		simhook.Y("tsmux.beforePop")
 		f := muxer.recvQueue.Pop()
+		simhook.Y("tsmux.afterPop")
 		if f == nil {
 			if !muxer.closed {
 				muxer.logger.Warn("tsmuxer: receive nil frame")
